@@ -147,6 +147,15 @@ func (e *Ev) ev(x ast.Expr) Val {
 	case *ast.StarExpr:
 		return e.evStar(x)
 	case *ast.FuncLit:
+		if !e.contract && e.fx.con != nil {
+			// a function literal with a "closure N" block in the contract is verified against it for one
+			// call with arbitrary arguments; the value itself is handed on as an opaque function
+			e.fx.nclosure++
+			if cc := e.fx.con.Closures[e.fx.nclosure]; cc != nil {
+				e.verifyClosure(x, cc, e.fx.nclosure)
+				return VFuncParam{Nil: "false"}
+			}
+		}
 		if !e.contract && e.fx.con != nil && e.fx.con.Options["closures"] == "unverified" {
 			// the literal is only handed over as a value; its body is NOT verified (stated by the
 			// contract option and listed in the evidence)
